@@ -541,6 +541,35 @@ func ruleRequestTx(c *RC) *RuleResult {
 			}
 		}
 	}
+	// writers of the missing list: appended by the requester, one entry deleted per delivered transaction, cleared only
+	// by the epoch writer (anything else forgets requests the application is still answering)
+	for _, s := range c.writesTo("ctx.MissingTransactions") {
+		for _, sn := range s.Snaps {
+			if sn.Val == nil {
+				continue
+			}
+			r.Sites++
+			v := sn.Val
+			switch {
+			case v.K == KCall && v.Name == "append":
+				r.ok(s.Fn.Name + ": append to the missing list")
+			case v.K == KLocal && strings.HasPrefix(v.Name, "ext:slices.Delete"):
+				if s.Fn == c.API["OnTransaction"] {
+					r.ok(s.Fn.Name + ": one entry deleted for the delivered transaction")
+				} else {
+					r.fail(s.Fn.Name+"/missing-delete", c.Prog.Pos(s.Node), "entries of the missing list are deleted outside OnTransaction")
+				}
+			case c.clearedValue(v):
+				if s.Fn == c.A.epochWriter {
+					r.ok("missing list cleared by the epoch writer")
+				} else {
+					r.fail(s.Fn.Name+"/missing-cleared", c.Prog.Pos(s.Node), "the missing-transaction list is cleared in "+s.Fn.Name+" (outside the epoch writer): requested transactions delivered afterwards are ignored")
+				}
+			default:
+				r.fail(s.Fn.Name+"/missing-write", c.Prog.Pos(s.Node), "unexpected write of the missing-transaction list: "+v.S)
+			}
+		}
+	}
 	// appends to MissingTransactions are under "GetTx(h) == nil" for the ranged hash
 	for _, s := range c.writesTo("ctx.MissingTransactions") {
 		for _, sn := range s.Snaps {
